@@ -12,9 +12,9 @@ ID = "C08"
 READY = True
 LEAN_TARGETS = ["NauyacaVerif.Props.C08"]
 THEOREMS = ['NauyacaVerif.C08.reach_sound', 'NauyacaVerif.C08.mustReject_refused', 'NauyacaVerif.C08.reach_sound_spec', 'NauyacaVerif.C08.reject_status', 'NauyacaVerif.C08.reject_fragment', 'NauyacaVerif.C08.reject_userinfo', 'NauyacaVerif.C08.titan_disabled', 'NauyacaVerif.C08.limit_exact', 'NauyacaVerif.C08.maxRequest_tie', 'NauyacaVerif.C08.maxRequest_is_1024', 'Url.parse_canonical']
-LEAN_TARGETS = ["NauyacaVerif.Props.C08", "NauyacaVerif.Url.Canon", "NauyacaVerif.Props.Tr.ParseUrl", "NauyacaVerif.Props.Tr.TitanFromLine"]
-TRANSLATED = ["parseUrl", "titanParams", "titanFromLine"]
-THEOREMS = THEOREMS + ["NauyacaVerif.Translated.parseUrl_eq", "NauyacaVerif.Translated.titanParams_size", "NauyacaVerif.Translated.titanFromLine_size"]
+LEAN_TARGETS = ["NauyacaVerif.Props.C08", "NauyacaVerif.Url.Canon", "NauyacaVerif.Props.Tr.ParseUrl", "NauyacaVerif.Props.Tr.TitanFromLine", "NauyacaVerif.Props.Tr.DataReceived"]
+TRANSLATED = ["parseUrl", "titanParams", "titanFromLine", "dataReceived"]
+THEOREMS = THEOREMS + ["NauyacaVerif.Translated.parseUrl_eq", "NauyacaVerif.Translated.titanParams_size", "NauyacaVerif.Translated.titanFromLine_size", "NauyacaVerif.Translated.data_received_refines", "NauyacaVerif.Translated.reads_refine_init"]
 EXTRACT = ["maxRequest"]
 LEVEL_TEXT = "Proved for every event list: whatever handler, upload handler or middleware is invoked with was a request line of <= 1024 bytes incl. CRLF, valid UTF-8, accepted by the parse_url model (Titan: only with uploads enabled and a well-formed non-negative size); parse_url provably refuses the must-reject classes no-colon / wrong scheme / no '//' / empty authority / non-empty fragment / non-empty user-info for EVERY behaviour of the opaque ipaddress/NFKC checks; refused lines get 59 (50) and no invocation; the size limit is exact. Completeness core: parse_canonical (canonical spellings are accepted with intact components). Partial: the full RFC 3986 grammar (completeness direction) and Titan parameter syntax are covered by the correspondence (grammar generator up to exactly 1022 bytes, systematic corruptions, raw bytes) and by an independent Python oracle, not by a theorem."
 LEVEL_NOTE = "Trusted: Lean kernel (axioms propext, Classical.choice, Quot.sound only); the hand-written model Srv.step/Srv.pumpStep is tied to /repo by extraction (constants, 'every transport.write sits in _send_response') and by the correspondence run of every check (fake transport with asyncio's write-after-close semantics, virtual-clock loop, scripted handlers; real PyOpenSSL pump over memory BIOs); asyncio's transport/timer contract, OpenSSL's record layer and Python exception texts are assumed, see assumptions."
